@@ -752,12 +752,28 @@ impl<'a> Ctx<'a> {
 				variants.push((format!("after_end_x{}", k), v));
 			}
 		}
+		// many different unknown codes: the payload table may declare up to 84 event types
+		{
+			let mut v = evs.clone();
+			let lim = first_ge.unwrap_or(evs.len());
+			for (j, code) in [0x41u8, 0x50, 0x5F, 0x66, 0x7E].iter().enumerate() {
+				let pos = (j * 3) % (lim + 1);
+				v.insert(pos.min(v.len()), unk(*code, 400000 + j));
+			}
+			variants.push(("many_codes".into(), v));
+		}
 		let l = self.db.for_version(self.built.ver[0], self.built.ver[1]);
 		let table: Vec<String> = self.beh.table.iter().filter(|k| l.gecko || (*k != "gecko" && *k != "split")).cloned().collect();
 		variants
 			.into_iter()
 			.map(|(name, v)| {
 				let mut oo = o.clone();
+				if name == "many_codes" {
+					// 60 declared codes, most of them never used
+					for c in 0x41u8..=0x7E {
+						oo.unk_sizes.insert(c, 1 + (c as u16 % 9));
+					}
+				}
 				// sizes incl. the largest a payload table can declare
 				let pick = (crate::util::fnv(&self.built.bytes) % 4) as usize;
 				oo.unk_sizes.insert(0x40, [1u16, 7, 600, 65535][pick]);
@@ -794,6 +810,30 @@ impl<'a> Ctx<'a> {
 			if std::env::var("PV_TRACE_C17").is_ok() {
 				eprintln!("c17_sizes ver={:?} extra={} start={:?} end={:?} accepted={}", self.built.ver, extra, sl, el, real::read_slp_noopts(&with.bytes).is_ok());
 			}
+			self.fixed_point_clauses(&with.bytes, None, false, &cls, out);
+		}
+	}
+
+	/// C17 on metadata holding values of UBJSON types beyond the ones Slippi writes: whatever of it the reader accepts,
+	/// the writer must be able to write, and the three clauses hold.
+	pub fn c17_metadata_types(&self, o: &crate::gen::GenOpts, out: &mut Vec<Viol>) {
+		if self.beh.meta != "some" {
+			return;
+		}
+		let vals: Vec<(&str, Vec<u8>)> = vec![
+			("T", vec![b'T']), ("F", vec![b'F']), ("Z", vec![b'Z']), ("i", vec![b'i', 0xFF]), ("U", vec![b'U', 200]),
+			("I", vec![b'I', 0x80, 0x00]), ("L", vec![b'L', 0xFF, 0, 0, 0, 0, 0, 0, 1]), ("d", vec![b'd', 0x3F, 0x80, 0, 0]),
+			("D", vec![b'D', 0x3F, 0xF0, 0, 0, 0, 0, 0, 0]), ("C", vec![b'C', b'x']), ("H", vec![b'H', b'U', 2, b'1', b'2']),
+			("[]", vec![b'[', b']']), ("[l]", vec![b'[', b'l', 0, 0, 0, 1, b']']),
+		];
+		for (name, val) in vals {
+			let mut body: Vec<u8> = vec![b'U', 1, b'k'];
+			body.extend_from_slice(&val);
+			body.extend_from_slice(&crate::gen::default_meta_body());
+			let mut oo = o.clone();
+			oo.meta_body = Some(body);
+			let with = crate::gen::build_beh(self.db, self.beh, &oo);
+			let cls = format!("{},metadata_value:{}", shape_class(self.beh), name);
 			self.fixed_point_clauses(&with.bytes, None, false, &cls, out);
 		}
 	}
@@ -1049,6 +1089,26 @@ impl<'a> Ctx<'a> {
 				}
 			}
 			let cc = format!("{},comp:{}", cls, comp.name());
+			// the hash is a string the archive stores verbatim: one in another spelling, or not an XXH3 digest at all,
+			// comes back unchanged as well
+			if with_hash && crate::util::fnv(&self.built.bytes) % 3 == 1 {
+				for foreign in ["xxh3:580FEC7A32EC691A", "xxh3:fec7a32ec691a", "sha1:da39a3ee5e6b4b0d3255bfef95601890afd80709", "", "xxh3:+80fec7a32ec691a"] {
+					if let Outcome::Ok(mut gf) = real::read_slp(&self.built.bytes, false, false) {
+						gf.hash = Some(foreign.to_string());
+						match real::write_slpp(gf, *comp) {
+							Outcome::Ok(a) => match real::read_slpp(&a, false) {
+								Outcome::Ok(g3) => {
+									if g3.hash.as_deref() != Some(foreign) {
+										out.push(viol("slpp_hash", &cc, "mismatch", format!("stored hash {:?} came back as {:?}", foreign, g3.hash)));
+									}
+								}
+								o => out.push(outcome_viol("slpp_read", &cc, &o)),
+							},
+							o => out.push(outcome_viol("slpp_write", &cc, &o)),
+						}
+					}
+				}
+			}
 			// history: an earlier .slpp write on this thread failed part-way (sink full)
 			// (of another game of the same shape, at a point anywhere in the archive or within its last 2 kB)
 			let other = crate::gen::build_beh(self.db, self.beh, &crate::gen::GenOpts::new(crate::util::fnv(&self.built.bytes), self.built.ver));
@@ -1086,6 +1146,15 @@ impl<'a> Ctx<'a> {
 			};
 			if g2.hash != hash {
 				out.push(viol("slpp_hash", &cc, "mismatch", format!("{:?} vs {:?}", g2.hash, hash)));
+			}
+			// the member of peppi.json that carries it (archives are exchanged between builds and implementations)
+			if let Ok(es) = crate::tarx::walk(&arch) {
+				if let Some(pj) = es.iter().find(|e| e.name == "peppi.json").and_then(|e| serde_json::from_slice::<serde_json::Value>(&e.data).ok()) {
+					let stored = pj.get("slp_hash").and_then(|v| v.as_str()).map(|s| s.to_string());
+					if stored != hash {
+						out.push(viol("slpp_hash", &cc, "mismatch", format!("peppi.json slp_hash = {:?}, the replay's hash is {:?}", stored, hash)));
+					}
+				}
 			}
 			if g2.quirks.map_or(false, |q| q.double_game_end) != quirk {
 				out.push(viol("slpp_quirks", &cc, "mismatch", "double_game_end lost".into()));
